@@ -103,7 +103,7 @@ func fixedByteDocs() []byteDoc {
 	add("reproducer:glob-u2028", "version: \"3\"\ntasks:\n  t:\n    sources: [\"*.t"+ls+"xt\"]\n    cmds: [echo hi]\n")
 	add("glob-non-ascii", "version: \"3\"\ntasks:\n  t:\n    sources: [\"d\u00e9p/*.t\u00ebxt\", \"[\", \"a{b,c\", \"**/**/[!a-\", \"\\\\\"]\n    cmds: [echo hi]\n")
 	add("regex-names", "version: \"3\"\ntasks:\n  \"x.y\": echo\n  \"a+\": echo\n  \"[\": echo\n  \"*(\": echo\n  \"\\\\\": echo\n  \"a{1001}\": echo\n  \"(?P<n>\": echo\n")
-	add("regex-heavy-name", "version: \"3\"\ntasks:\n  \""+strings.Repeat("(a*)*", 200)+"b\": echo\n")
+	add("regex-heavy-name", "version: \"3\"\ntasks:\n  \""+strings.Repeat("(a*)*", 40)+"b\": echo\n")
 	add("requires-kinds", "version: \"3\"\ntasks:\n  t:\n    requires: {vars: [A, {name: B, enum: ~}, {name: ~}, {enum: [x]}]}\n    cmds: [echo]\n")
 	add("nil-everywhere", "version: \"3\"\ntasks:\n  t:\n    cmds: [~, echo, ~]\n    deps: [~]\n    preconditions: [~]\n    generates: [~]\n    aliases: [~]\n    status: [~]\n    dotenv: [~]\n    prompt: [~]\n    set: [~]\n")
 	add("empty-maps-everywhere", "version: \"3\"\noutput: {}\nincludes: {}\nvars: {}\nenv: {}\ntasks:\n  t: {}\n  u: {cmds: [{}], deps: [{}], sources: [{}], preconditions: [{}], requires: {}, vars: {}, env: {}}\n")
